@@ -153,6 +153,7 @@ type Interp struct {
 	obs          []obsRec
 	schedTrace   []int
 	syncTrace    []SyncEvent
+	mapOrder     map[*ssa.Range]bool // per range statement of non-harness code: iterate maps in reverse insertion order
 	gateOrder    []string
 	sigTags      []string
 	ixCache      map[*ssa.Function]*Intrinsic
@@ -199,6 +200,7 @@ func (in *Interp) resetRun() {
 	in.obs = nil
 	in.schedTrace = nil
 	in.syncTrace = nil
+	in.mapOrder = nil
 	in.gateOrder = nil
 	in.sigTags = nil
 	if in.StubsHit == nil {
@@ -767,7 +769,7 @@ func (in *Interp) step(g *G) {
 	case *ssa.MakeMap:
 		in.set(fr, ins, Value{K: KMap, R: newMap()})
 	case *ssa.Range:
-		in.set(fr, ins, in.rangeInit(in.get(fr, ins.X)))
+		in.set(fr, ins, in.rangeInitAt(fr, ins, in.get(fr, ins.X)))
 	case *ssa.Next:
 		in.set(fr, ins, in.rangeNext(in.get(fr, ins.Iter), ins))
 	case *ssa.FieldAddr:
